@@ -6,6 +6,7 @@ import (
 	"github.com/ah-naf/borno/ast"
 	"github.com/ah-naf/borno/token"
 	"github.com/ah-naf/borno/utils"
+	"github.com/ah-naf/borno/vhook"
 )
 
 var reservedIdentifiers = map[string]bool{
@@ -915,6 +916,7 @@ func (p *Parser) isAtEnd() bool {
 }
 
 func (p *Parser) peek() token.Token {
+	vhook.ParseStep()
 	return p.tokens[p.current]
 }
 
